@@ -236,10 +236,45 @@ def _match_cases(tier, seed):
                            kind=kind, self_match=self_match)
 
 
+def _edge_cases(tier, seed):
+    """pairs on either side of a triangle boundary (the equator, the octant meridians, a mid-latitude parallel crossing many leaf
+    edges), separated by a set fraction of a radius between 5e-7 and 1e-4 degree: the smallest radii of the statement"""
+    import numpy as np
+    rng = np.random.default_rng(seed + 77)
+    radii = [1e-6, 1.3e-6, 2e-6, 2.5e-6, 5e-6, 1e-5, 3e-5, 1e-4]
+    if tier == "quick":
+        radii = [1e-6, float(rng.choice([1.3e-6, 2e-6, 2.5e-6])), float(rng.choice([5e-6, 1e-5, 3e-5, 1e-4]))]
+    n = 120 if tier == "quick" else 400
+    for radius in radii:
+        for where in ("equator", "meridian", "oblique"):
+            frac = rng.uniform(0.05, 0.999, n)
+            frac[: n // 3] = rng.uniform(0.85, 0.999, n // 3)
+            sep = frac * radius
+            if where == "equator":
+                ra = rng.uniform(0, 360, n)
+                ra1, ra2, dec1, dec2 = ra, ra.copy(), sep * 0.5, -sep * 0.5
+            elif where == "meridian":
+                dec = rng.uniform(-60, 60, n)
+                m = rng.choice([0.0, 90.0, 180.0, 270.0, 45.0], n)
+                half = 0.5 * sep / np.cos(np.radians(dec))
+                ra1, ra2, dec1, dec2 = (m + half) % 360, (m - half) % 360, dec, dec.copy()
+            else:
+                ra = rng.uniform(0, 360, n)
+                dec = rng.uniform(-80, 80, n)
+                ang = rng.uniform(0, 2 * np.pi, n)
+                ra1, dec1 = ra, dec
+                ra2, dec2 = (ra + sep * np.cos(ang) / np.cos(np.radians(dec))) % 360, dec + sep * np.sin(ang)
+            for depth in ([int(rng.choice([3, 10, 12, 13]))] if tier == "quick" else [3, 10, 13]):
+                yield dict(ra1=np.asarray(ra1, dtype="f8"), dec1=np.asarray(dec1, dtype="f8"), ra2=np.asarray(ra2, dtype="f8"),
+                           dec2=np.asarray(dec2, dtype="f8"), radius=radius if rng.random() < 0.7 else np.full(n, radius),
+                           depth=depth, maxmatch=int(rng.choice([-1, 0, 1000])), kind="edge-" + where, self_match=False)
+
+
 @domain("esutil.htm#match")
 def _dom_match(tier, seed):
+    import itertools
     import numpy as np
-    for c in _match_cases(tier, seed):
+    for c in itertools.chain(_match_cases(tier, seed), _edge_cases(tier, seed)):
         key = "%s n1=%d n2=%d radius=%s depth=%d maxmatch=%d self=%s" % (
             c["kind"], c["ra1"].size, c["ra2"].size, ("%.3g" % c["radius"]) if np.ndim(c["radius"]) == 0 else "per-point", c["depth"], c["maxmatch"], c["self_match"])
         yield dict(call=(lambda: None), args=[], ghost={k: c[k] for k in ("ra1", "dec1", "ra2", "dec2", "radius", "depth", "maxmatch")}, key=key)
@@ -369,6 +404,22 @@ def bincount_statement(ra1, dec1, ra2, dec2, rmin, rmax, nbin, scale, depth):
     c3 = h.bincount(rmin, rmax, nbin, ra1, dec1, ra2, dec2, scale=scale, htmid2=ids, htmrev2=rev, minid=minid, maxid=maxid, getbins=False)
     if not np.array_equal(np.asarray(c3), counts):
         return "supplying htmid2, htmrev2, minid, maxid changes the counts: %s vs %s" % (np.asarray(c3).tolist(), counts.tolist())
+    # the caller's precomputed arrays in other layouts (a column of a table, a field of a record array, byte-swapped): the values
+    # are what counts.  Done on a depth-1 tree, whose reverse-index table has a few dozen entries.
+    h1 = htm.HTM(1)
+    base = np.asarray(h1.bincount(rmin, rmax, nbin, ra1, dec1, ra2, dec2, scale=scale, getbins=False))
+    ids = h1.lookup_id(ra2, dec2)
+    minid, maxid = int(ids.min()), int(ids.max())
+    hist, rev = stat.histogram(ids - minid, rev=True)
+    tab = np.zeros((rev.size, 2), dtype=rev.dtype)
+    tab[:, 0] = rev
+    rec = np.zeros(ids.size, dtype=[("pad", "i4"), ("id", ids.dtype)])
+    rec["id"] = ids
+    for what, i2, r2 in (("a column of a 2-d table as htmrev2", ids, tab[:, 0]), ("a record field as htmid2", rec["id"], rev),
+                         ("byte-swapped htmrev2", ids, rev.astype(rev.dtype.newbyteorder()))):
+        c4 = h1.bincount(rmin, rmax, nbin, ra1, dec1, ra2, dec2, scale=scale, htmid2=i2, htmrev2=r2, minid=minid, maxid=maxid, getbins=False)
+        if not np.array_equal(np.asarray(c4), base):
+            return "%s changes the counts: %s vs %s" % (what, np.asarray(c4).tolist(), base.tolist())
     return True
 
 
